@@ -155,11 +155,14 @@ func c11Record(tier string, seed int64, emit func(interface{})) {
 	}
 	for i := 0; i < n; i++ {
 		m := 1 + rng.Intn(24)
+		if i%6 == 5 { // a long oligo whose few ambiguity codes sit far from its start
+			m = 60 + rng.Intn(90)
+		}
 		b := make([]byte, m)
 		prod := 1
 		for j := range b {
 			c := upper[rng.Intn(4)]
-			if prod < 128 && rng.Intn(3) == 0 {
+			if prod < 128 && (m < 60 && rng.Intn(3) == 0 || m >= 60 && j >= m-12 && rng.Intn(3) == 0) {
 				c = upper[rng.Intn(len(upper))]
 				prod *= map[byte]int{'A': 1, 'C': 1, 'G': 1, 'T': 1, 'R': 2, 'Y': 2, 'S': 2, 'W': 2, 'K': 2, 'M': 2, 'B': 3, 'D': 3, 'H': 3, 'V': 3, 'N': 4}[c]
 			}
